@@ -68,12 +68,12 @@ class EvalMixin:
         if z3.is_true(goal):
             self.trivial += 1
         where = getattr(node, 'lineno', None)
-        parts = split_goal(goal)
+        parts = split_goal(goal) if FINITE['K'] is None else [goal]
         if len(parts) == 1:
-            self.obligations.append(Ob(label, st.pc, goal, kind, tuple(st.path), where, self.current_fn))
+            self.obligations.append(Ob(label, st.pc, goal, kind, tuple(st.path), where, self.current_fn, dict(st.env), dict(st.store)))
         else:
             for j, g in enumerate(parts):
-                self.obligations.append(Ob('%s/%d' % (label, j), st.pc, g, kind, tuple(st.path), where, self.current_fn))
+                self.obligations.append(Ob('%s/%d' % (label, j), st.pc, g, kind, tuple(st.path), where, self.current_fn, dict(st.env), dict(st.store)))
 
     def safety(self, st, goal, what, node):
         txt = ''
@@ -219,17 +219,16 @@ class EvalMixin:
             if a.id == b.id:
                 return z3.BoolVal(True)
             if isinstance(ca, ListC) and isinstance(cb, ListC):
-                i = fresh_const('qi', z3.IntSort())
-                ea = unpack(st, z3.Select(ca.arr, i), ca.t.args[0])
-                eb = unpack(st, z3.Select(cb.arr, i), cb.t.args[0])
-                return z3.And(ca.n == cb.n, z3.ForAll([i], z3.Implies(z3.And(0 <= i, i < ca.n), self.eq(ea, eb, st))))
+                def body(i):
+                    ea = unpack(st, z3.Select(ca.arr, i), ca.t.args[0])
+                    eb = unpack(st, z3.Select(cb.arr, i), cb.t.args[0])
+                    return self.eq(ea, eb, st)
+                return z3.And(ca.n == cb.n, q_index(ca.n, body))
             if isinstance(ca, SetC) and isinstance(cb, SetC) and ca.t == cb.t:
-                k = fresh_const('qk', sort_of(ca.t.args[0]))
-                return z3.ForAll([k], z3.Select(ca.dom, k) == z3.Select(cb.dom, k))
+                return q_sort(ca.t.args[0], lambda k: z3.Select(ca.dom, k) == z3.Select(cb.dom, k))
             if isinstance(ca, DictC) and isinstance(cb, DictC) and ca.t == cb.t:
-                k = fresh_const('qk', sort_of(ca.t.args[0]))
-                return z3.ForAll([k], z3.And(z3.Select(ca.dom, k) == z3.Select(cb.dom, k),
-                                             z3.Implies(z3.Select(ca.dom, k), z3.Select(ca.val, k) == z3.Select(cb.val, k))))
+                return q_sort(ca.t.args[0], lambda k: z3.And(z3.Select(ca.dom, k) == z3.Select(cb.dom, k),
+                                                            z3.Implies(z3.Select(ca.dom, k), z3.Select(ca.val, k) == z3.Select(cb.val, k))))
             if isinstance(ca, ObjC) and isinstance(cb, ObjC):
                 raise OutOfSubset('== on objects')
         if isinstance(a, Ref) and isinstance(b, SV) and b.t.kind in ('list', 'dict', 'set'):
@@ -353,9 +352,7 @@ class EvalMixin:
                 except TypeError:
                     return z3.BoolVal(False)
             if isinstance(c, ListC):
-                i = fresh_const('mi', z3.IntSort())
-                el = unpack(st, z3.Select(c.arr, i), c.t.args[0])
-                return z3.Exists([i], z3.And(0 <= i, i < c.n, self.eq(el, x, st)))
+                return q_index(c.n, lambda i: self.eq(unpack(st, z3.Select(c.arr, i), c.t.args[0]), x, st), kind='any', name='mi')
             if isinstance(c, ObjC):
                 return None      # caller dispatches to __contains__
         raise OutOfSubset('`in` on %r' % (cont,))
@@ -630,8 +627,8 @@ class EvalMixin:
             return OptV(z3.Not(cond), a, Ty('opt', [type_of(a)]))
         if isinstance(a, TupV) and isinstance(b, TupV) and len(a.items) == len(b.items):
             items = [self.merge_values(st, cond, self.lift(x), self.lift(y)) for x, y in zip(a.items, b.items)]
-            if all(i is not None for i in items):
-                return TupV(items)
+            if all(i is not None for i in items) and a.cls == b.cls:
+                return TupV(items, a.cls)
         return None
 
     def ev_Compare(self, e, st):
@@ -674,6 +671,10 @@ class EvalMixin:
                 return None
             return c if isinstance(op, ast.In) else z3.Not(c)
         if isinstance(l, Ref) and isinstance(st.store[l.id], ObjC):
+            return None
+        if isinstance(l, SV) and l.t.kind == 'tuple':
+            l = unpack(st, l.e, l.t)
+        if isinstance(l, TupV) and l.cls is not None:
             return None
         if isinstance(l, SV) and l.t.kind == 'tuple':
             l = unpack(st, l.e, l.t)
